@@ -40,6 +40,21 @@ CHECKS = {
  "C20": dict(technique="TLA+ protocol spec (Data.tla) of the RNG calls of the five generators; real generators run with a scripted, tagging RandomState subclass and trace-validated against DataTrace.tla; validity table replayed",
              text="Each generator is a protocol over an abstract RNG (call order, documented parameters reaching the samplers, row i = tagged draw i of component y[i], permutation, affine structure); TLC validates recorded real call traces field by field and enumerates the validity table of parameter sets.",
              note="NumPy's samplers trusted; documented constants transcribed from the cited constructions; moment test is a labelled numeric side check", ref="DESIGN §4 C20"),
+ "C03": dict(technique="TLA+ spec (Backprop.tla: forward maps on dual numbers over exact rationals) evaluated by TLC on sampled integer cases and compared exactly with _compute_grads on Fraction arrays; real fits trace-validated (TrainTrace) with a per-coordinate direction predicate",
+             text="(a) the direction of every scalar parameter of every family (linear/RIM, MLP, sparse MLP with skip, categorical, KernelRIM, Douglas) is derived by TLC from the family's forward map with forward-mode dual numbers and the real back-propagation code must equal it exactly in rational arithmetic, for every ReLU pattern and cut ordering; (b) in real fits of every family x GEMINI x solver x batch size (plain and mlcl-decorated) every array handed to the optimiser at every step is compared with a kink-safe numerical derivative of the documented objective.",
+             note="(a) shapes n<=3,d<=2,h<=2,K<=3, Douglas bin memberships given; (b) numeric derivative evaluated by the harness, TLC requires the flag", ref="DESIGN §4 C03"),
+ "C06": dict(technique="Train.tla with the selected-feature set (groups whole) model-checked; real sparse fits/paths trace-validated (TrainTrace/PathTrace) with prox-step predicates; Groups.tla exhaustive",
+             text="Every proximal step of every real fit/path of the five sparse estimators is an event whose selected set TLC checks against the completed groups, and whose threshold (= alpha x current optimiser learning rate), applied operator, zero-row selection and W1 zeroing the recorder verified on the real arrays; inertness is checked bit-identically after fits and at every validation point of paths.",
+             note="operator semantics tied to the spec by C05; float predicates evaluated by the recorder", ref="DESIGN §4 C06"),
+ "C11": dict(technique="TLA+ forwarding table (Forward.tla) enumerated by TLC; each row replayed: behavioural identification of get_gemini() against the Gemini.tla oracle, affinity vs scikit-learn, precomputed = named equivalence (bitwise)",
+             text="The documented mapping estimator x hyperparameters -> (GEMINI family, OvA/OvO, affinity source) is a TLA+ table; for every row the real model's GEMINI is identified by its behaviour on oracle inputs (not by attribute names), its affinity is compared with the named scikit-learn function with the given parameters / the callable / the user's matrix, and naming a kernel or passing the same matrix as precomputed must give bitwise identical fits, paths and scores (gradient models and Kauri).",
+             note="scikit-learn pairwise functions are the trusted meaning of a named kernel/metric", ref="DESIGN §4 C11"),
+ "C18": dict(technique="TLA+ spec (Predict.tla: selections of query rows, row-wise laws) enumerated by TLC; every selection applied to every inductive estimator in several fitted states",
+             text="TLC enumerates every subset / ordering / duplication of query rows (length <= 4 of 4 rows; 5 thorough) with the row-wise, concatenation and permutation laws as invariants; each selection is applied to predict / predict_proba / tree routing of all 15 inductive estimators and must reproduce the rows of the whole-array answer; KernelRIM's kernel is observed to be taken between the query and the stored training points.",
+             note="softmax models: bitwise first, 1e-12 relative fallback for BLAS reassociation (counted in the evidence)", ref="DESIGN §4 C18"),
+ "C19": dict(technique="TLA+ spec (KauriPrint.tla: printing grammar, reader, read-back = routing theorem) on every final tree of the Kauri.fit state machine; real print_kauri_tree output parsed and compared token by token",
+             text="The printed text is specified as a token sequence of the node table together with a reader that only knows the text; TLC proves read-back = routing on every final tree it reaches, and the real function's stdout for installed and really fitted trees is parsed strictly, compared with the tokens, applied to grid points against predict, with the feature-name and unfitted/foreign-object guards.",
+             note="integer thresholds in the spec (fractional via scaling of installed trees)", ref="DESIGN §4 C19"),
 }
 def main():
     checks = []
